@@ -345,3 +345,9 @@ def r7(run, ctx):
     run.share(ctx, c06.r2, 'R2', 'R7', doc)
     run.share(ctx, c06.r4, 'R4', 'R7', doc)
     run.share(ctx, c06.r6, 'R6', 'R7', doc)
+    from rules import c02
+    run.share(ctx, c02.r2, 'R2', 'R8', 'a kill is never refused for good (shared with C02 R2): '
+              'kill_process releases its re-entrancy flag on every exit - with the flag stuck '
+              'every later stop/restart/decr of that worker returns at once and the stop path '
+              'waits in the reap loop for a worker that nobody signals (the daemon stops '
+              'answering, see finding F-REAP-SPIN)')
